@@ -237,7 +237,12 @@ class Number(Scalar):
             raise AdaptationError()
         else:
             if not self.signed:
-                if native < self.type_():  # 0, 0.0, etc.
+                try:
+                    negative = native < self.type_()  # 0, 0.0, etc.
+                except ArithmeticError:
+                    # unordered values, e.g. decimal.Decimal('NaN')
+                    raise AdaptationError()
+                if negative:
                     raise AdaptationError()
             return native
 
@@ -253,7 +258,11 @@ class Number(Scalar):
 
         """
         if type(value) is self.type_:
-            return self.format % value
+            try:
+                return self.format % value
+            except (ValueError, ArithmeticError):
+                # not representable by the format, e.g. a signaling NaN
+                pass
         return str(value)
 
 
